@@ -9,7 +9,7 @@ use std::sync::atomic::{AtomicUsize, Ordering};
 use std::sync::Mutex;
 use std::panic::{catch_unwind, AssertUnwindSafe};
 
-pub trait ElemT: Send + Sync + 'static {
+pub trait ElemT: Clone + Send + Sync + 'static {
     const DROP: bool;
     /// the element has a value field (`set_val` is not a no-op)
     const HAS_VAL: bool = true;
@@ -46,6 +46,10 @@ impl ElemT for Td {
     fn val(&self) -> u64 { self.val }
     fn set_val(&mut self, v: u64) { chk_align(self, "Td"); self.val = v }
     fn serial(&self) -> u64 { self.serial }
+}
+/// a clone is a new tracked object with the same identity, stamp and value
+impl Clone for Td {
+    fn clone(&self) -> Td { <Td as ElemT>::mk(self.id, self.stamp, self.val) }
 }
 impl Drop for Td {
     fn drop(&mut self) {
@@ -533,6 +537,13 @@ fn do_op<T: ElemT>(m: &mut Tab<T>, w: &[&str], chk: &mut Vec<String>, held: &mut
                 }
             }
             format!("list {}", if got.is_empty() { "-".to_string() } else { got.join(",") })
+        }
+        // the table is replaced by its clone, the original is dropped afterwards
+        "tclone" => {
+            let c = m.clone();
+            let old = std::mem::replace(m, c);
+            drop(old);
+            "unit".into()
         }
         "tclear" => {
             m.clear();
